@@ -207,7 +207,7 @@ func registerAll() {
 func TestPropGrammar(t *testing.T) {
 	registerAll()
 	alpha := []string{"0", "1", "5", "9", "-", "+", ".", "e", "E", "x"}
-	maxLen := ev.N(5, 7)
+	maxLen := ev.N(6, 7)
 	ev.KeepFirst("grammar")
 	var n, nt, bad int64
 	gen.Shortlex(alpha, maxLen, ev.Mine, func(b []byte, _ []int) {
